@@ -1,0 +1,27 @@
+//go:build verif
+
+// Contracts for package gripper, read by /verif/gvc (comment-only file; it declares
+// nothing and is compiled only with -tags verif).
+package gripper
+
+// ---- C15: edge ids of a mapped graph ---------------------------------------------------
+// An edge id is <from prefix><row id>-<label>-<to prefix><row id>. GenID builds it and
+// ParseEdge takes it apart again; on dash-free parts they are inverse (roundtrip). With a
+// dash inside a row id, prefix or label the id splits into more than three pieces and
+// ParseEdge refuses the id GenID produced: KNOWN FINDING (clause total) - such an edge is
+// listed by the graph but cannot be fetched by id.
+//@ func (*EdgeSource).GenID
+//@   property C15
+//@   option prelude=keys,dash
+//@   pure
+//@   requires nonnil: es != nil && es.toVertex != nil && es.fromVertex != nil && es.config != nil
+//@   ensures fwd: !es.reverse ==> result == es.fromVertex.prefix + srcID + "-" + es.config.Label + "-" + es.toVertex.prefix + dstID
+//@   ensures rev: es.reverse ==> result == es.toVertex.prefix + srcID + "-" + es.config.Label + "-" + es.fromVertex.prefix + dstID
+
+//@ func (*TabularGraph).ParseEdge
+//@   property C15
+//@   option prelude=keys,dash
+//@   pure
+//@   ensures roundtrip: forall a:Str, b:Str, c:Str :: nodash(a) && nodash(b) && nodash(c) && gid == a + "-" + b + "-" + c ==>
+//@       result.3 == nil && result.0 == a && result.1 == c && result.2 == b
+//@   ensures total: forall a:Str, b:Str, c:Str :: nodash(b) && gid == a + "-" + b + "-" + c ==> result.3 == nil
